@@ -139,6 +139,10 @@ pub struct Req {
     pub timed: bool,
     /// reads: event paths asked for besides the attribute paths
     pub ev_paths: Vec<(Option<u16>, Option<u32>, Option<u32>)>,
+    /// reads: data-version filters (endpoint, cluster, version) - the generic handler reports version 1 for every cluster
+    pub dv_filters: Vec<(u16, u32, u32)>,
+    /// reads: the smallest event number of interest (an event filter), if any
+    pub ev_min: Option<u64>,
     /// timed writes / invokes: everything the controller sends after its first datagram (the timed request) is held
     /// back in the network until the announced window (2 s) has passed
     pub late: bool,
@@ -199,12 +203,16 @@ pub fn run_request(spec: &NodeSpec, acl: &[AclEntry], pase: bool, req: &Req, max
                     let mut chunk = loop {
                         match sender.tx().await? {
                             TxOutcome::BuildRequest(b) => {
-                                sender = if !req.ev_paths.is_empty() {
-                                    let ev: Vec<rs_matter::im::EventPath> = req.ev_paths.iter().map(|p| rs_matter::im::EventPath::from_gp(&gp(p))).collect();
-                                    b.attr_requests_from(&paths)?.event_requests_from(&ev)?.fabric_filtered(false)?.end()?
-                                } else {
-                                    b.attr_requests_from(&paths)?.fabric_filtered(false)?.end()?
-                                }
+                                let ev: Vec<rs_matter::im::EventPath> = req.ev_paths.iter().map(|p| rs_matter::im::EventPath::from_gp(&gp(p))).collect();
+                                let dvf: Vec<rs_matter::im::DataVersionFilter> = req.dv_filters.iter().map(|f| rs_matter::im::DataVersionFilter { path: rs_matter::im::ClusterPath { node: None, endpoint: f.0, cluster: f.1 }, data_ver: f.2 }).collect();
+                                let evf = [rs_matter::im::EventFilter { node: None, event_min: req.ev_min }];
+                                let b1 = b.attr_requests_from(&paths)?;
+                                let b4 = match (ev.is_empty(), req.ev_min.is_some()) {
+                                    (true, _) => b1.fabric_filtered(false)?,
+                                    (false, false) => b1.event_requests_from(&ev)?.fabric_filtered(false)?,
+                                    (false, true) => b1.event_requests_from(&ev)?.event_filters_from(&evf)?.fabric_filtered(false)?,
+                                };
+                                sender = if dvf.is_empty() { b4.end()? } else { b4.dataver_filters_from(&dvf)?.end()? };
                             }
                             TxOutcome::GotResponse(c) => break c,
                         }
